@@ -11,6 +11,15 @@
 (*   Finish                -- late-directive warnings                                         *)
 (* In the final state the line sets must mean what the directives say (DirInv...).            *)
 (*                                                                                            *)
+(* ErrorLog.error (after Finish, at most MaxErrs times): the VM raises an error u = [name,    *)
+(* op, xl, ret] -- detected while the opcode on line op executes, to be reported on line xl   *)
+(* (0: on the opcode's line):                                                                 *)
+(*   ErrCreate(u)          -- Error.with_stack: the error object sits on line op              *)
+(*   ErrLine               -- `if line: err.set_line(line)`                                   *)
+(*   ErrFilterAdd          -- _add: the Director's filter decides on the CURRENT line         *)
+(* LogInv: the error ends up on the asked line and is kept iff that line carries no           *)
+(* directive for it, wherever it was detected (relocated errors: incomplete-match).           *)
+(*                                                                                            *)
 (* _LineSet machine (Mode "lineset"): the operations set_line / start_range on one object,    *)
 (* every sequence up to LsMaxOps over lines 0..LsMaxLine.                                     *)
 EXTENDS DirectivesOps, Json, IOUtils
@@ -24,6 +33,9 @@ CONSTANTS Mode,          \* "files" | "skeleton" | "lineset" | "trace"
           DefsAt,        \* candidate lines for the first definition when there is no function
           LsMaxLine, LsMaxOps,
           CheckFrame,    \* BOOLEAN: check the frame conditions in final states
+          NameSets,      \* "single": a directive names one error class; "all": every class in
+                         \* Names at once (`disable=a,b,c,...`: the whole alphabet per placement)
+          MaxErrs,       \* number of errors the VM raises after the Director is built
           Export         \* "none" | "files" | "obs" | "lshist" | "lstrans"
 
 VARIABLES file,    \* the file record (see DirectivesOps)
@@ -33,9 +45,16 @@ VARIABLES file,    \* the file record (see DirectivesOps)
           st,      \* [ls, br, raised]
           late,    \* late-directive warnings
           one,     \* a single _LineSet (Mode "lineset")
-          hist     \* operations applied to `one`: [op, l, m, raised]
+          hist,    \* operations applied to `one`: [op, l, m, raised]
+          elog     \* ErrorLog.error: [n = errors raised so far, u = the request, cur = the error
+                   \* object, res = outcome of the last completed call [line, rep]]
 
-vars == <<file, phase, items, pc, st, late, one, hist>>
+vars == <<file, phase, items, pc, st, late, one, hist, elog>>
+
+NoRaise == [name |-> "", op |-> 0, xl |-> 0, ret |-> FALSE]
+NoErr == [name |-> "", line |-> 0, ret |-> FALSE]
+NoRes == [line |-> 0, rep |-> FALSE]
+ELog0 == [n |-> 0, u |-> NoRaise, cur |-> NoErr, res |-> NoRes]
 
 NoFile == [id |-> 0, n |-> 0, stmts |-> {}, calls |-> {}, funcs |-> {}, rets |-> {}, defs |-> 0,
            plain |-> {}, glob |-> {}, cs |-> <<>>, canT |-> {}, canS |-> {}]
@@ -94,7 +113,8 @@ Skels == IF Mode = "skeleton" THEN JsonDeserialize(IOEnv.SKEL_FILE) ELSE <<>>
 -----------------------------------------------------------------------------
 (* Director pipeline *)
 
-NameChoices == {{x} : x \in Names \cup (IF WithStar THEN {Star} ELSE {})}
+NameChoices == IF NameSets = "all" THEN {Names}
+               ELSE {{x} : x \in Names \cup (IF WithStar THEN {Star} ELSE {})}
 Atoms(F) ==
   {[line |-> l, trail |-> t, cmd |-> "disable", names |-> N] :
       l \in 1 .. F.n, t \in BOOLEAN, N \in NameChoices}
@@ -113,22 +133,47 @@ CanAdd(F, c) ==
 AddComment(c) ==
   /\ phase = "build" /\ CanAdd(file, c)
   /\ file' = [file EXCEPT !.cs = Append(@, c)]
-  /\ UNCHANGED <<phase, items, pc, st, late, one, hist>>
+  /\ UNCHANGED <<phase, items, pc, st, late, one, hist, elog>>
 
 Parse ==
   /\ phase = "build"
   /\ items' = WorkItems(file) /\ st' = St0(file) /\ pc' = 1 /\ phase' = "run"
-  /\ UNCHANGED <<file, late, one, hist>>
+  /\ UNCHANGED <<file, late, one, hist, elog>>
 
 Process ==
   /\ phase = "run" /\ pc <= Len(items)
   /\ st' = ProcItem(st, file, items[pc]) /\ pc' = pc + 1
-  /\ UNCHANGED <<file, phase, items, late, one, hist>>
+  /\ UNCHANGED <<file, phase, items, late, one, hist, elog>>
 
 Finish ==
   /\ phase = "run" /\ pc > Len(items)
   /\ late' = Late(file, st) /\ phase' = "done"
-  /\ UNCHANGED <<file, items, pc, st, one, hist>>
+  /\ UNCHANGED <<file, items, pc, st, one, hist, elog>>
+
+-----------------------------------------------------------------------------
+(* ErrorLog.error as the VM calls it, with the Director's filter_error installed *)
+
+Raises(F) ==
+  {[name |-> nm, op |-> o, xl |-> x, ret |-> r] :
+     nm \in Names \cup {"other-error"}, o \in 1 .. F.n, x \in 0 .. F.n, r \in BOOLEAN}
+
+ErrCreate(u) ==
+  /\ phase = "done" /\ elog.n < MaxErrs
+  /\ elog' = [n |-> elog.n + 1, u |-> u, cur |-> ErrNew(u), res |-> NoRes]
+  /\ phase' = "err-new"
+  /\ UNCHANGED <<file, items, pc, st, late, one, hist>>
+
+ErrLine ==
+  /\ phase = "err-new"
+  /\ elog' = [elog EXCEPT !.cur = ErrSetLine(@, elog.u.xl)]
+  /\ phase' = "err-lined"
+  /\ UNCHANGED <<file, items, pc, st, late, one, hist>>
+
+ErrFilterAdd ==
+  /\ phase = "err-lined"
+  /\ elog' = [elog EXCEPT !.res = ErrAdd(file, [ls |-> st.ls, br |-> st.br], elog.cur)]
+  /\ phase' = "done"
+  /\ UNCHANGED <<file, items, pc, st, late, one, hist>>
 
 -----------------------------------------------------------------------------
 (* _LineSet machine *)
@@ -139,11 +184,11 @@ LsOp(op, l, m) ==
        /\ one' = IF r THEN one
                  ELSE IF op = "set_line" THEN LsSetLine(one, l, m) ELSE LsStartRange(one, l, m)
        /\ hist' = Append(hist, [op |-> op, l |-> l, m |-> m, raised |-> r])
-  /\ UNCHANGED <<file, phase, items, pc, st, late>>
+  /\ UNCHANGED <<file, phase, items, pc, st, late, elog>>
 
 -----------------------------------------------------------------------------
 Init ==
-  /\ items = <<>> /\ pc = 0 /\ late = {} /\ one = LsEmpty /\ hist = <<>>
+  /\ items = <<>> /\ pc = 0 /\ late = {} /\ one = LsEmpty /\ hist = <<>> /\ elog = ELog0
   /\ CASE Mode = "files" -> file \in Structures /\ phase = "build"
        [] Mode = "skeleton" -> file \in {FileOfJson(Skels[x]) : x \in DOMAIN Skels} /\ phase = "build"
        [] Mode = "lineset" -> file = NoFile /\ phase = "ls"
@@ -153,6 +198,8 @@ Init ==
 Next ==
   \/ \E c \in Atoms(file) : AddComment(c)
   \/ Parse \/ Process \/ Finish
+  \/ \E u \in Raises(file) : ErrCreate(u)
+  \/ ErrLine \/ ErrFilterAdd
   \/ \E op \in {"set_line", "start_range"}, l \in 0 .. LsMaxLine, m \in BOOLEAN : LsOp(op, l, m)
 
 Spec == Init /\ [][Next]_vars
@@ -160,7 +207,7 @@ Spec == Init /\ [][Next]_vars
 -----------------------------------------------------------------------------
 (* Invariants of the Director pipeline (final states) *)
 
-IsDone == phase = "done"
+IsDone == phase = "done" /\ elog.n = 0
 AllLines(F) == QueryLines(F)
 
 (* the line sets mean what the documented reading says *)
@@ -218,6 +265,19 @@ DirInvFrame ==
                                           /\ a < file.cs[j].line /\ (b = 0 \/ file.cs[j].line < b))
           => FrameStandalone(file, k, a, b)
 
+(* ErrorLog.error: the three steps compose to the one-shot operator; the error ends up on the *)
+(* line it was asked to be reported at (an implicit-return error: on the line the Director    *)
+(* moves it to) and it is kept iff THAT line carries no directive for it -- in particular a    *)
+(* relocated error is never judged on the line of the opcode that detected it                 *)
+LogInv ==
+  (phase = "done" /\ elog.n > 0) =>
+     LET u == elog.u
+         v == elog.res IN
+     /\ v = LogOp(file, [ls |-> st.ls, br |-> st.br], u)
+     /\ v = DeclLog(file, items, u, TRUE)
+     /\ ~(u.name = BRT /\ u.ret) => v.line = AskedLine(u)
+     /\ v.rep = ~Supp(file, items, u.name, QLine(v.line), TRUE)
+
 (* line sets of LineSet mode *)
 LsInv ==
   phase = "ls" =>
@@ -226,7 +286,7 @@ LsInv ==
        HistMonotone(h) => \A l \in 0 .. LsMaxLine + 1 : LsContains(one, l) = HistMember(h, l)
 
 TypeOK ==
-  /\ phase \in {"build", "run", "done", "ls", "idle"}
+  /\ phase \in {"build", "run", "done", "ls", "idle", "err-new", "err-lined"}
   /\ \A k \in Keys : st.ls[k].on \cap st.ls[k].off = {}
 
 -----------------------------------------------------------------------------
